@@ -444,6 +444,10 @@ class Circuit:
                 ll.driver = node_map[l.driver]
                 ll.driver_pin = l.driver_pin
             ll.driver.outs[ll.driver_pin] = ll
+        for n in node_map.values():  # an unconnected output behind a copied fork must not leave a gap in that fork's outputs.
+            if n.kind == '__fork__' and any(l is None for l in n.outs):
+                n.outs = GrowingList(l for l in n.outs if l is not None)
+                for i, l in enumerate(n.outs): l.driver_pin = i
         for n in dangling:  # clean up only after all outputs are connected and only what was copied in, never other nodes of the main circuit.
             self.remove_dangling_nodes(n, within=set(node_map.values()))
 
